@@ -33,6 +33,11 @@ def sources():
     add('sum-binder', True, target='tv', lv='(id (const (range (base))))', place='quant:sum')
     add('select-binder', True, target='tv', lv='(id (const (range (base))))', place='update')
     add('iteration-binder', True, target='tv', lv='(id (const (range (base))))', place='iter')
+    # the same binders over a scalar set and over a named range: the binder is a constant whatever it ranges over
+    for place, nm in (('quant:forall', 'forall'), ('quant:exists', 'exists'), ('quant:sum', 'sum'), ('update', 'select'), ('iter', 'iteration')):
+        for bt, tag in (('SS', 'scalar'), ('id_t', 'typedef')):
+            add('%s-binder-%s' % (nm, tag), True, target='tv', lv='(id (const (range (base))))', place=place)
+            out[-1]['btype'] = bt
     return out
 
 
@@ -44,6 +49,13 @@ FORMS = [('assign', '%s = 1', '(write %s)'), ('compound', '%s += 1', '(write %s)
 def build(src, form, place=None):
     fname, ftxt, flv = form
     stmt = ftxt % src['target']
+    bt = src.get('btype', 'int[0,1]')
+    if bt == 'SS':
+        # a scalar can only be assigned and passed on: the forms that make sense for it
+        stmt = {'assign': '%s = gS', 'inline-if-left': '(mb ? %s : gS) = gS', 'inline-if-right': '(mb ? gS : %s) = gS', 'nested': '(%s = gS) = gS', 'ref-arg': 'wrS(%s)', 'ref-arg-nested': 'wrS2(%s)'}.get(fname)
+        if stmt is None:
+            return None
+        stmt = stmt % src['target']
     if 'bounded' in src['name'] and (fname.startswith('inline-if') or fname.startswith('ref-arg')):
         return None        # int[0,5] and int are not equivalent types: these forms would be rejected for a typing reason
     is_struct = 'struct-whole' in src['name']
@@ -51,7 +63,7 @@ def build(src, form, place=None):
         if fname in ('compound', 'post-inc', 'pre-dec', 'inline-if-left', 'inline-if-right', 'nested', 'ref-arg', 'ref-arg-nested'):
             return None
         stmt = '%s = ms' % src['target']
-    g = 'typedef struct { int a; int b; } S;\nint mg; bool mb; S ms;\nvoid wr(int &r) { r = 1; }\nvoid wr2(int &r) { wr(r); }\n' + src['gdecl'] + '\n'
+    g = 'typedef struct { int a; int b; } S;\nint mg; bool mb; S ms;\nvoid wr(int &r) { r = 1; }\nvoid wr2(int &r) { wr(r); }\ntypedef scalar[3] SS; SS gS; void wrS(SS &r) { r = gS; } void wrS2(SS &r) { wrS(r); } typedef int[0,1] id_t;\n' + src['gdecl'] + '\n'
     tdecl, upd, sel, tparams, sysl = '', '', '', '', 'system T;'
     place = place or src['place']
     if place in ('before_update', 'after_update'):
@@ -64,14 +76,17 @@ def build(src, form, place=None):
     elif place.startswith('quant'):
         q = place.split(':')[1]
         body = stmt if fname != 'ref-arg' and fname != 'ref-arg-nested' else stmt
-        g += 'int hq() { return %s (tv : int[0,1]) (%s)%s; }\n' % (q, '(%s) == 1' % body if q != 'sum' else '(%s)' % body, '' if q == 'sum' else ' ? 1 : 0')
         if 'wr' in stmt:
             return None          # a void call is not an operand; the binder write forms cover the case
+        if bt == 'SS':
+            g += 'int hq() { return %s (tv : SS) (%s)%s; }\n' % (q, '(%s) == gS' % body if q != 'sum' else '((%s) == gS ? 1 : 0)' % body, '' if q == 'sum' else ' ? 1 : 0')
+        else:
+            g += 'int hq() { return %s (tv : %s) (%s)%s; }\n' % (q, bt, '(%s) == 1' % body if q != 'sum' else '(%s)' % body, '' if q == 'sum' else ' ? 1 : 0')
     elif place == 'update':
-        sel = 'tv : int[0,1]'
+        sel = 'tv : %s' % bt
         upd = stmt
     elif place == 'iter':
-        g += 'void h() { for (tv : int[0,1]) %s; }\n' % stmt
+        g += 'void h() { for (tv : %s) %s; }\n' % (bt, stmt)
     xml = '''<?xml version="1.0" encoding="utf-8"?>
 <nta><declaration>%s</declaration><template><name>T</name><parameter>%s</parameter><declaration>%s</declaration>
 <location id="id0"/><location id="id1"/><init ref="id0"/>
